@@ -33,4 +33,8 @@ theorem familyOf_v6 (ip : Bytes) (h : IsV6 ip) : familyOf ip = (2, 128) := by
 theorem countOpt_append (a b : List RR) : countOpt (a ++ b) = countOpt a + countOpt b := by
   simp [countOpt, List.filter_append]
 
+/-- an 8193-byte body for the oversize witness -/
+def bigBody : Bytes := List.replicate 8193 0
+theorem bigBody_length : bigBody.length = 8193 := List.length_replicate ..
+
 end BfeVerif.C56
